@@ -224,8 +224,10 @@ pub fn judge_step(
                 Out::Err(e) => {
                     let acceptable = matches!(decode, DecodeExp::MustFail | DecodeExp::Either) && !e.is_checksum();
                     if !acceptable {
+                        // with decoding off no payload-level error may be raised: also C07
+                        let props = if matches!(decode, DecodeExp::NotRequested) { vec!["C05", "C08", "C07"] } else { vec!["C05", "C08"] };
                         f.push((
-                            vec!["C05", "C08"],
+                            props,
                             "asm.unfragmented-rejected".into(),
                             format!("a valid unfragmented sentence was rejected: {}", e.show()),
                         ));
@@ -283,8 +285,9 @@ pub fn judge_step(
             Out::Err(e) => {
                 let acceptable = matches!(decode, DecodeExp::MustFail | DecodeExp::Either) && !e.is_checksum();
                 if !acceptable {
+                    let props = if matches!(decode, DecodeExp::NotRequested) { vec!["C05", "C07"] } else { vec!["C05"] };
                     f.push((
-                        vec!["C05"],
+                        props,
                         "asm.rejects-good-fragment".into(),
                         format!("the last fragment of an in-order group was rejected: {}", e.show()),
                     ));
